@@ -1295,15 +1295,15 @@ func conv(t_dst, t_src types.Type, x value) value {
 
 		case types.Rune:
 			x := x.([]value)
-			r := make([]rune, 0, len(x))
+			var out []value
 			for i := range x {
 				if sr, ok := x[i].(sym); ok {
-					r = append(r, rune(int32(cur.concretize(sr.e))))
+					out = append(out, strBytes(symRuneToString(sr))...)
 					continue
 				}
-				r = append(r, x[i].(rune))
+				out = append(out, strBytes(string(x[i].(rune)))...)
 			}
-			return string(r)
+			return normStr(out)
 		}
 
 	case *types.Basic:
